@@ -259,6 +259,11 @@ func ExecCoop(plan *CoopPlan, rc *RunCtx) *Violation {
 		prep = append(prep, p)
 		_ = h
 	}
+	// somebody has looked at every balance before (a polling wallet): the balance cache is warm, so
+	// in-memory balance bookkeeping of the concurrent requests is visible afterwards
+	for _, a := range Accts[:nAcct] {
+		n0.S.GetBalance(a.Addr)
+	}
 	pre := n0.Disk.Clone()
 	// ---- concurrent execution ------------------------------------------------------------------------
 	r.op = "concurrent"
